@@ -22,6 +22,7 @@ DOC = {
         'C01.R4': 'hashing task: inode groups keyed by file_info.id; FileId equality is the derived one over exactly {device, inode}',
         'C01.R5': 'hash_transformed: the length bound handed to stream_hash has no data dependence on chunk.len (the raw file length)',
         'C01.R6': 'fields of FileInfo written through the &mut handed to hash_fn and read by the group key are assigned on every HashedFileInfo the task sends',
+        'C01.R15': 'a group that no stage reads (all its paths are one file: hard links kept by -H / --isolate) is still looked at before it is reported: the test that decides whether a passed group has to be examined also opens every path and compares its current length with the scanned one, so that an unreadable or grown file goes through the hashing path and its warnings instead of being reported as it was scanned',
         'C01.R14': 'one result per inode is shared between hard links only where it is a function of the file alone: group_transformed switches the sharing off (the grouping key of the hashing thread includes the path) when the transform program is handed the original path ($IN with --no-copy)',
         'C01.R13': 'one hash per inode is shared only between paths that still have that (device, inode): the hashing task of rehash re-examines the identity of the members of a multi-path group (FileId::new of the path against the scanned id) before the hash function is called, and leaves out the paths that now lead elsewhere',
         'C01.R12': 'with the hash cache a reported group still consists of identical files: an entry that a same-length rewrite within the tick of a coarse file-system clock would leave valid is never stored (re-evaluates C12.R6)',
@@ -51,6 +52,7 @@ def run(ctx):
     r11(ctx)
     r13(ctx)
     r14(ctx)
+    r15(ctx)
     from .common import reevaluate
     from . import c12
     reevaluate(ctx, 'C01.R12', c12.r6)
@@ -909,3 +911,41 @@ def r13(ctx):
               'the paths that had one (device, inode) when they were scanned share one hash for ever: only the first path is opened, the others are never looked at again. When a hard-linked name is '
               'replaced by "write a new file, rename it over the name" (editors, rsync, package managers) between the scan and the hashing - or between two stages - the replaced name is still '
               'reported with the hash and length of its former siblings although its content differs, or its new content is hashed and given to the untouched siblings')
+
+
+def r15(ctx, rule='C01.R15'):
+    lib = ctx.lib
+    core = rehash_core(lib)
+    if core is None:
+        ctx.missing(rule, 'group::rehash')
+        return
+    preds = []
+    for c in core.calls(r'Iterator::partition$'):
+        k = op_const(c.args[-1])
+        pb = lib.body(k['fn']) if isinstance(k, dict) and k.get('fn') else None
+        if pb is None:
+            l = op_local(c.args[-1])
+            cp = lib.closure_of_type(core.local_ty(l)) if l is not None else None
+            pb = lib.body(cp) if cp else None
+        if pb is not None and pb.path != core.path:
+            bodies = [pb] + [lib.body(cp) for cp in lib.closures_of(pb.path)]
+            if any(x.calls(r'^file::FileId::new$|FileMetadata::new$|^std::fs::metadata$') for x in bodies):
+                preds.append((c, bodies))
+    if not preds:
+        ctx.missing(rule, 'the examination test of the passed groups in rehash', core.where())
+        return
+    c, bodies = preds[0]
+    opens = [k for x in bodies for k in x.calls(r'^std::fs::File::open$|hasher::open_noatime$|OpenOptions::open$')]
+    lens = False
+    for x in bodies:
+        for k in x.calls(r'PartialEq.*>::(eq|ne)$|PartialEq::(eq|ne)$'):
+            names = set()
+            for a in k.args:
+                names |= set(backslice(x, [a]).field_names())
+            if 'len' in names and any(backslice(x, [a]).has_call(r'FileMetadata::len$|Metadata::len$') for a in k.args):
+                lens = True
+    ctx.check(bool(opens) and lens, rule, core.path + '|passed-groups-readable', (opens[0].where() if opens else c.where()),
+              'the test of the passed groups opens every path and compares its length with the scanned one: an unreadable or changed file is examined (hashed, with its warnings)',
+              'a group that passes all stages unhashed (its paths are one file: hard links with -H or --isolate) is never opened: d/a = d/b with mode 000 are reported as duplicates without a '
+              'warning - and are left out with "Permission denied" as soon as an unrelated file of the same size exists; a file that grew after the scan is reported with its old length, while a '
+              'hashed file in that situation is left out ("file length changed since the file was scanned")')
